@@ -33,7 +33,9 @@ check('C03', level='model_checking', steps=[dict(src='drv/local.c', variant='pla
       rule=RULE_LOCAL, deadline=dict(quick=240, thorough=3000),
       mc_keys=dict(states='ref_states', transitions='ref_transitions'))
 
-check('C04', level='exploration', steps=[dict(src='drv/c04.c', variant='plain', name='domain')],
+check('C04', level='exploration', steps=[dict(src='drv/c04.c', variant='plain', name='domain'),
+                                           # the LABELS_ALLOW_UNDERSCORE build compiles another branch structure of the same scanner: all generators again, reference with '_' as a letter
+                                           dict(src='drv/c04.c', variant='opt4', defs=['-DREF_OPTS=4'], name='domain-UNDERSCORE-build')],
       rule=("every string is generated once per layer (L1 odometer over 8 classes; L2 base x position x byte; L3 length generators incl. the label-count sweep n = 1..140 equal labels of 1..63 characters, each also behind a 64-octet local part, and all-numeric names of 1..12 labels); "
             "non-trivial = L1 strings of >= 2 bytes containing a dot or hyphen (the structure rules are exercised); counted by the driver"),
       deadline=dict(quick=240, thorough=3000))
@@ -61,7 +63,10 @@ check('C11', level='exploration', steps=[dict(src='drv/c11.c', variant='plain', 
             "non-trivial = row look-ups + file rows + generated lines compared (each distinct by construction)"),
       deadline=dict(quick=300, thorough=600))
 
-check('C07', level='exploration', steps=[dict(src='drv/tld.c', variant='plain', name='tld')],
+check('C07', level='exploration', steps=[dict(src='drv/tld.c', variant='plain', name='tld'),
+                                           # partial/idn and partial/idnkit carry their own copies of the TLD look-up of mode 6531: all generators again on those builds
+                                           dict(src='drv/tld.c', variant='idnkit', name='tld-idnkit', extra_src=['drv/shim.c'], ldflags=[SHIMWRAP], args=['--only6531']),
+                                           dict(src='drv/tld.c', variant='idn', name='tld-idn', extra_src=['drv/shim.c'], ldflags=[SHIMWRAP], args=['--only6531'])],
       rule=("every CSV row x 5 case variants x 0-4 preceding labels drawn from 8 label shapes, every near miss of every row (proper prefixes/suffixes, deletions, "
             "substitutions and insertions over [a-z0-9-]) after two different prefixes, every 1-3 character last label, every U-label of raw.csv in mode 6531, every row of the library's own tld_list as last label, the label-depth corpus (24 suffixes behind all sequences of 0-4 labels over 6 shapes, behind 5..126 one-letter labels, reserved-name prefixes/suffixes); "
             "distinct_nontrivial counts only the lower-/upper-case row spellings x prefixes, which are pairwise distinct by construction (near misses may repeat)"),
@@ -186,6 +191,9 @@ COSTWRAP = '-Wl,' + ','.join('--wrap=' + w for w in ['memcpy', 'memchr', 'strchr
 check('C06', level='exploration', steps=[
           dict(src='drv/c06.c', variant='asan', name='asan-ubsan-lsan', env=ASAN_ENV),
           dict(src='drv/c06.c', variant='plain', defs=['-DGUARD'], name='guard-pages'),
+          # reads of uninitialised memory (a stack buffer compared before it was written ...) are undefined behaviour that ASan does not see: the ASCII modes and
+          # the ASCII part validators under MemorySanitizer (libidn2 is not instrumented, so mode 6531 stays with ASan / valgrind)
+          dict(src='drv/c06.c', variant='msan', defs=['-DASCII_ONLY'], name='msan-ascii-modes', env={'MSAN_OPTIONS': 'exitcode=77:halt_on_error=1:print_stats=0'}),
           dict(src='drv/c06cost.c', variant='covbb', name='linear-work', ldflags=[COSTWRAP]),
           dict(builder=build_hist, name='hist-memcheck', prop='C13', backends=['idn2'], xargs=['--maxdepth', '3', '--nopoison'],
                cmdprefix=['valgrind', '-q', '--error-exitcode=9', '--undef-value-errors=yes', '--leak-check=no', '--child-silent-after-fork=no']),
